@@ -44,8 +44,27 @@ BulkVerdict(c) ==
     ELSE IF IsDH(c.proto) /\ c.dhhet # 0 THEN "dh-not-homozygous"
     ELSE "ok"
 
+\* the matrix-level helpers the protocols (and the EMBV code) are built on: mat_mate / dense_cross take a female and a male
+\* genotype array and one selection index per progeny and side (a "2w" row [female, male] per progeny); mat_dh / dense_dh
+\* take one index per progeny ("sx" row, c.dh = TRUE: both copies are the same gamete)
+HelperVerdict(c) ==
+    LET N == Len(c.xconfig)
+    IN IF c.exc # "none" THEN "exception"
+       ELSE IF Len(c.prog) # N THEN "progeny-count"
+       ELSE IF \E k \in 1..N : \E h \in 1..2 : Len(c.prog[k][h]) # Len(c.xo) THEN "marker-count"
+       ELSE IF \E k \in 1..N : \E h \in 1..2 : \E l \in 1..Len(c.xo) :
+                 c.prog[k][h][l] \notin SideTags(c.proto, c.xconfig[k], 0, h - 1)
+            THEN "allele-from-undesignated-parent"
+       ELSE IF \E k \in 1..N : \E h \in 1..2 : \E l \in 2..Len(c.xo) :
+                 c.prog[k][h][l] # c.prog[k][h][l - 1] /\ c.xo[l] = 0
+            THEN "source-switch-where-crossover-impossible"
+       ELSE IF c.dh /\ \E k \in 1..N : c.prog[k][1] # c.prog[k][2] THEN "dh-not-homozygous"
+       ELSE IF ~c.parentsame THEN "parents-modified"
+       ELSE "ok"
+
 TInit == /\ i \in 1..Len(Cases)
          /\ proto = "sx" /\ row = <<>> /\ ns = 0 /\ xo = <<>> /\ stage = "trace" /\ ind = <<>> /\ aux = <<>> /\ left = 0
 TSpec == TInit /\ [][UNCHANGED tvars]_tvars
-Report == PrintT(<<"CASE", Cases[i].id, IF Cases[i].kind = "bulk" THEN BulkVerdict(Cases[i]) ELSE Verdict(Cases[i])>>)
+Report == PrintT(<<"CASE", Cases[i].id, IF Cases[i].kind = "bulk" THEN BulkVerdict(Cases[i])
+                                         ELSE IF Cases[i].kind = "helper" THEN HelperVerdict(Cases[i]) ELSE Verdict(Cases[i])>>)
 ==============================================================================
